@@ -427,6 +427,13 @@ raw_mmap (void *a, size_t n, int prot, int flags, int fd, off_t off)
   return (void *) r;
 }
 
+static uintptr_t guard_lo = (uintptr_t) -1, guard_hi;
+int
+vh_is_guard_block (const void *p)
+{
+  return (uintptr_t) p >= guard_lo && (uintptr_t) p < guard_hi;
+}
+
 void *
 vh_guard_alloc (size_t n)
 {
@@ -440,6 +447,10 @@ vh_guard_alloc (size_t n)
   if (mprotect (base + pg, body, PROT_READ | PROT_WRITE))
     vh_internal ("guard mprotect failed");
   memset (base + pg, 0xEE, body);
+  if ((uintptr_t) base < guard_lo)
+    guard_lo = (uintptr_t) base;
+  if ((uintptr_t) base + body + 2 * pg > guard_hi)
+    guard_hi = (uintptr_t) base + body + 2 * pg;
   return base + pg + body - n;
 }
 
@@ -600,6 +611,19 @@ munmap (void *addr, size_t len)
 }
 
 #ifdef VH_MALLOC_SEAM
+/* Blocks handed out while the seam is armed end exactly at an inaccessible page, so a write or read past a block
+   faults at the offending instruction (inside the armed call) instead of corrupting the harness's heap. */
+static void *
+armed_alloc (size_t n)
+{
+  return vh_guard_alloc (n ? n : 1);
+}
+
+static int
+is_guarded (const struct vh_blk *b)
+{
+  return b && b->kind == 'm' && b->by_lib >= 0;
+}
 extern void *__libc_malloc (size_t);
 extern void *__libc_realloc (void *, size_t);
 extern void *__libc_calloc (size_t, size_t);
@@ -615,7 +639,7 @@ malloc (size_t n)
           errno = ENOMEM;
           return 0;
         }
-      void *p = __libc_malloc (n);
+      void *p = armed_alloc (n);
       if (p)
         ledger_add (p, n, 'm');
       return p;
@@ -633,9 +657,12 @@ calloc (size_t a, size_t b)
           errno = ENOMEM;
           return 0;
         }
-      void *p = __libc_calloc (a, b);
+      void *p = armed_alloc (a * b);
       if (p)
-        ledger_add (p, a * b, 'm');
+        {
+          memset (p, 0, a * b);
+          ledger_add (p, a * b, 'm');
+        }
       return p;
     }
   return __libc_calloc (a, b);
@@ -657,7 +684,7 @@ realloc (void *old, size_t n)
       if (b && vh_on_release)
         vh_on_release (old, b->n, 'r');
       /* always move, so stale pointers are caught and contents rules are visible */
-      void *p = __libc_malloc (n ? n : 1);
+      void *p = armed_alloc (n);
       if (!p)
         return 0;
       if (old)
@@ -668,10 +695,11 @@ realloc (void *old, size_t n)
           memcpy (p, old, c);
           if (b)
             {
-              memset (old, 0xDD, b->n);
               b->live = 0;
+              vh_guard_free (old, b->n ? b->n : 1);        /* the old block disappears: a stale pointer faults */
             }
-          __libc_free (old);
+          else
+            __libc_free (old);
         }
       ledger_add (p, n, 'm');
       return p;
@@ -696,7 +724,13 @@ free (void *p)
       if (vh_on_release)
         vh_on_release (p, b->n, 'f');
       b->live = 0;
+      vh_guard_free (p, b->n ? b->n : 1);          /* every ledger block of kind 'm' was made by armed_alloc */
+      return;
     }
+  /* a block that left the ledger (ledger reset between cases) but was guard-allocated cannot be told apart from a libc
+     block by address alone: guard blocks live outside the brk/arena ranges libc uses, so ask libc only for its own */
+  if (vh_is_guard_block (p))
+    return;                     /* leaked on purpose: unmapping without the size is not possible; cases are short-lived */
   __libc_free (p);
 }
 #endif
